@@ -70,8 +70,9 @@ Definition run_stored_rd (allow_missing : bool) (st : stored) ss se rs re cs ce 
    whose (source) plane positions the caller passed as plane_positions, in the
    caller's order.  'Spatial locations preserved' (no plane_positions, or exactly
    the source's in the source's order): TotalPixelMatrixOriginSequence / Rows /
-   Columns are the SOURCE's.  Otherwise: the origin is the X / Y offset of the
-   np.lexsort([rows, columns])-first listed tile (NO Z offset is written: 0), and
+   Columns are the SOURCE's.  Otherwise: the origin is the X / Y / Z offset of the
+   np.lexsort([rows, columns])-first listed tile (the top left tile: the source's
+   origin, see below), and
    Rows / Columns = position of the lexsort-last listed tile + tile size - 1. *)
 Definition tile_ab (nc t : Z) : Z * Z := (t / nc, t mod nc).
 (* order of np.lexsort([row_offsets, col_offsets]): by column, then by row *)
@@ -103,7 +104,7 @@ Definition pm_tiled_matrix (pos rowcos colcos : v3) (spr spc : Q) (R C th tw : Z
         (* a first listed tile other than the top left one (the matrix positions of the
            frames are then no longer relative to the declared origin) is not modelled *)
         if negb ((fst f =? 0) && (snd f =? 0)) then Err "unmodelled"
-        else Ok (V3 (vx pos) (vy pos) 0, (fst e + 1) * th, (snd e + 1) * tw)
+        else Ok (pos, (fst e + 1) * th, (snd e + 1) * tw)
   end.
 
 (* Mpad = the caller's tiles laid out on the tile grid (whole tiles: the padded mosaic);
